@@ -1005,3 +1005,14 @@ def mon_c20(scripts, stats):
                         yield sc, n, 'C20: cosmos-sdk query.Paginate panics for a reverse page request whose cursor is the last key (query %s)' % ty
                     else:
                         yield sc, n, 'C20: %s %s panicked' % (cmd, ty)
+
+
+# ---------------- C18 ----------------
+def mon_c18(scripts, stats):
+    for sc, n, inp, cmd, ty, a, pre, obs in walk(scripts):
+        if cmd != 'DETCHECK':
+            continue
+        stats['mon_c18_replays'] += 1
+        d = obs.get('DET', [''])[0]
+        if d != 'same':
+            yield sc, n, 'C18: replay (%s) of the same history differs from the first execution: %s' % (a.get('mode'), d[:300])
